@@ -27,7 +27,7 @@ Theorem C17_assignment_refuted : forall fields vals cF n a x y,
   check a y n = DOk tt -> assign_field cF n a y = DRej (EDuplicate n).
 Proof.
   intros fields vals cF n a x y H Hin Hl Hc. apply assignment_is_refused; auto.
-  unfold run_pydantic in H. eapply validated_fields_registered; eauto.
+  unfold run_pydantic in H. exact (proj1 (validated_fields_registered fields vals (ctx0 []) cF n a x H Hin Hl)).
 Qed.
 Redirect "C17.assumptions.1" Print Assumptions C17_field_order.
 Redirect "C17.assumptions.2" Print Assumptions C17_assignment_refuted.
